@@ -106,6 +106,30 @@ Fixpoint drain {S} (body : S -> prog S) (fuel : nat) (s : S) (kb : list Z) : wst
     end
   end.
 
+(** the same loop for a layer that can hold deliverable bytes of its own (HTTP): the caller reads until it
+    would block, i.e. it also calls again after a call that delivered something, even if the kernel buffer is
+    empty by then ([more]); a call that returns 0 and consumed nothing ends the event — normally when the
+    kernel buffer is empty, as a livelock otherwise *)
+Fixpoint drainw {S} (body : S -> prog S) (fuel : nat) (s : S) (kb : list Z) (more : bool) : wst S * list ev :=
+  if match kb with [] => negb more | _ => false end then ({| inner := s; dead := 0 |}, [])
+  else
+    match fuel with
+    | O => ({| inner := s; dead := 3 |}, [ELive])
+    | Datatypes.S f =>
+      let '(o, kb1, e1) := exec (body s) kb in
+      match o with
+      | None => ({| inner := s; dead := 2 |}, e1)
+      | Some (s1, r) =>
+          if r <? 0 then ({| inner := s1; dead := 1 |}, e1)
+          else if (r =? 0) && (lenZ kb1 =? lenZ kb) then
+            match kb with
+            | [] => ({| inner := s1; dead := 0 |}, e1)
+            | _ => ({| inner := s1; dead := 3 |}, e1 ++ [ELive])
+            end
+          else let '(w, e2) := drainw body f s1 kb1 (0 <? r) in (w, e1 ++ e2)
+      end
+    end.
+
 Definition feed {S} (body : S -> prog S) (w : wst S) (chunk : list Z) : wst S * list ev :=
   if dead w =? 0 then drain body (length chunk) (inner w) chunk else (w, []).
 
